@@ -65,7 +65,7 @@ class State:
             raise PathEnd("assume false")
         self.pc.append(f)
         for c in conjuncts(f):
-            if not has_quantifier(c):
+            if not is_heavy(c):
                 self.solver.add(c)
 
     def sat(self, extra=None):
@@ -78,6 +78,8 @@ class State:
 
     def feasible(self, f):
         """True unless pc ∧ f is *proved* unsatisfiable (unknown counts as feasible: sound)."""
+        if is_heavy(f):
+            return True
         return self.sat(f) != z3.unsat
 
     def must(self, f):
@@ -114,7 +116,8 @@ class State:
         self.pos += 1
         c = cond if d else z3.Not(cond)
         self.pc.append(c)
-        self.solver.add(c)
+        if not is_heavy(c):
+            self.solver.add(c)
         if what:
             self.branch_log.append(f"{what}={d}")
         return d
@@ -146,6 +149,31 @@ def conjuncts(f):
     else:
         yield f
 
+
+
+def is_heavy(f):
+    """quantified or nonlinear-real facts are kept out of the light branch-feasibility solver (sound: fewer constraints)"""
+    seen = set()
+    stack = [f]
+    while stack:
+        e = stack.pop()
+        i = e.get_id()
+        if i in seen:
+            continue
+        seen.add(i)
+        if z3.is_quantifier(e):
+            return True
+        if z3.is_app(e):
+            k = e.decl().kind()
+            if k == z3.Z3_OP_MUL:
+                nonconst = [c for c in e.children() if not (z3.is_rational_value(c) or z3.is_int_value(c))]
+                if len(nonconst) > 1:
+                    return True
+            elif k in (z3.Z3_OP_DIV, z3.Z3_OP_POWER) and e.sort() == z3.RealSort():
+                if not (z3.is_rational_value(e.arg(1)) or z3.is_int_value(e.arg(1))):
+                    return True
+        stack.extend(e.children())
+    return False
 
 
 def has_quantifier(f):
